@@ -50,6 +50,10 @@ def gaussian_frechet_distance(
         msg = f"Inputs cov_x and cov_y must have the same shape; got {cov_x.shape} and {cov_y.shape}."
         raise ValueError(msg)
 
+    if not (torch.isfinite(cov_x).all() and torch.isfinite(cov_y).all()):
+        msg = "Inputs cov_x and cov_y must be finite (no NaN or infinite entries)."
+        raise ValueError(msg)
+
     a = (mu_x - mu_y).square().sum()
     b = cov_x.trace() + cov_y.trace()
     c = torch.linalg.eigvals(cov_x @ cov_y).sqrt().real.sum()
